@@ -676,12 +676,18 @@ var errC07Harness = errors.New("harness")
 // c07WaitBackground waits until no goroutine started by the ingest pipeline is left. The pipeline
 // offers no handle on them, so the goroutine dump is polled for their entry functions (a goroutine
 // that has been created but has not run yet is listed too).
+var c07StackBuf = make([]byte, 1<<20)
+
 func c07WaitBackground() error {
-	buf := make([]byte, 1<<20)
+	buf := c07StackBuf
 	deadline := time.Now().Add(20 * time.Second)
 	for i := 0; ; i++ {
 		n := runtime.Stack(buf, true)
-		if !bytes.Contains(buf[:n], []byte("lib.tryShareRegistrationOverAPI")) && !bytes.Contains(buf[:n], []byte("lib.handleConnectingTpReg")) {
+		// (a goroutine that has not run yet shows only a compiler-made wrapper as its entry, so
+		// the "created by <function>" line is what identifies it; nobody is inside these two
+		// functions while this poll runs)
+		if !bytes.Contains(buf[:n], []byte("lib.(*RegistrationManager).ingestRegistration")) && !bytes.Contains(buf[:n], []byte("lib.handleConnectingTpReg")) &&
+			!bytes.Contains(buf[:n], []byte("lib.tryShareRegistrationOverAPI")) {
 			return nil
 		}
 		if time.Now().After(deadline) {
